@@ -13,6 +13,7 @@
 package main
 
 import (
+	"encoding/binary"
 	"fmt"
 	"math/big"
 	"os"
@@ -34,12 +35,14 @@ import (
 
 func main() {
 	if len(os.Args) < 2 {
-		fmt.Fprintln(os.Stderr, "usage: c16 decide|faults|faultchild [flags]")
+		fmt.Fprintln(os.Stderr, "usage: c16 decide|sdecide|faults|faultchild [flags]")
 		os.Exit(2)
 	}
 	switch os.Args[1] {
 	case "decide":
 		os.Exit(decide(os.Args[2:]))
+	case "sdecide":
+		os.Exit(sdecide(os.Args[2:]))
 	case "faults":
 		os.Exit(faults(os.Args[2:]))
 	case "faultchild":
@@ -309,32 +312,23 @@ func parseFault(s string) faultCase {
 
 var faultOTs = []string{"co", "cot", "co", "cotm"}
 
-// Streaming sessions (compiler.Stream <-> circuit.StreamEvaluator) take part in
-// the fault enumeration as session indices >= streamBase.
-const streamBase = 100
-
-var streamPrograms = []string{
-	"package main\nfunc main(a, b uint4) uint4 {\n\treturn a*b + 1\n}\n",
-	"package main\nfunc main(a, b uint6) (uint6, bool) {\n\tc := a + b\n\tif c > a {\n\t\treturn c, true\n\t}\n\treturn a &^ b, false\n}\n",
-	"package main\nfunc main(a, b int5) (int5, int5) {\n\treturn a - b, a & b\n}\n",
-}
-
-type streamSess struct {
-	src      string
-	gin, ein []string
-	outBits  int
-}
-
-func streamSessionFor(seed uint64, ci int) (*streamSess, uint64) {
-	r := hxlib.NewRng(seed*1000003 + uint64(ci)*7919 + 13)
-	k := (ci - streamBase) % len(streamPrograms)
-	w := []uint{4, 6, 5}[k]
-	ss := &streamSess{src: streamPrograms[k], outBits: []int{4, 7, 10}[k]}
-	av := r.U64() & (1<<w - 1)
-	bv := r.U64() & (1<<w - 1)
-	ss.gin = []string{fmt.Sprint(av)}
-	ss.ein = []string{fmt.Sprint(bv)}
-	return ss, r.U64()
+// span is the byte range [lo, hi) of the stream a fault can change.
+func (f *faultCase) span() (int, int) {
+	switch f.kind {
+	case "burst":
+		return f.pos, f.pos + 16
+	case "xor":
+		lo, hi := f.pos, f.pos+1
+		for k := 0; k < 4; k++ {
+			if byte(uint32(f.arg)>>uint(24-8*k)) != 0 {
+				hi = f.pos + k + 1
+			} else if lo == f.pos+k && k < 3 {
+				lo++
+			}
+		}
+		return lo, hi
+	}
+	return f.pos, f.pos + 1
 }
 
 func mutator(f *faultCase) func(off int64, p []byte) {
@@ -349,6 +343,14 @@ func mutator(f *faultCase) func(off int64, p []byte) {
 			if int64(f.pos) >= off && int64(f.pos) < end {
 				p[int64(f.pos)-off] ^= 0xff
 			}
+		case "xor":
+			// a 32-bit mask over the big-endian word at pos (a single byte: mask<<24)
+			for k := 0; k < 4; k++ {
+				q := int64(f.pos + k)
+				if q >= off && q < end {
+					p[q-off] ^= byte(uint32(f.arg) >> uint(24-8*k))
+				}
+			}
 		case "burst":
 			br := hxlib.NewRng(uint64(f.arg))
 			for k := 0; k < 16; k++ {
@@ -360,45 +362,6 @@ func mutator(f *faultCase) func(off int64, p []byte) {
 			}
 		}
 	}
-}
-
-// runStreamFault runs one streaming session with at most one fault.
-func runStreamFault(seed uint64, f *faultCase, ci int, deadline time.Duration) (string, int, int) {
-	ss, sub := streamSessionFor(seed, ci)
-	rr := hxlib.NewRng(sub)
-	d := hxlib.NewDuplex(nil)
-	if f != nil {
-		if f.dir == 0 {
-			d.AB.Mutate = mutator(f)
-		} else {
-			d.BA.Mutate = mutator(f)
-		}
-	}
-	res := hxlib.RunStreamSession(ss.src, ss.gin, ss.ein, hxlib.COFactory(rr.Fork()), rr.Fork(), d, deadline)
-	d.Close()
-	class := ""
-	switch {
-	case res.Stalled && res.GRes == nil:
-		class = "stalled"
-	case res.GPanic != nil, res.GErr != nil:
-		class = "error"
-	default:
-		ref := hxlib.StreamReference(ss.src, ss.gin, ss.ein)
-		if ref.Err != nil || ref.Panic != nil {
-			class = "error"
-		} else if hxlib.BigsString(ref.Res) == hxlib.BigsString(res.GRes) {
-			class = "ok"
-		} else {
-			class = "WRONG got=" + hxlib.BigsString(res.GRes) + " want=" + hxlib.BigsString(ref.Res)
-		}
-	}
-	if res.GPanic != nil {
-		class += " gpanic"
-	}
-	if res.EPanic != nil {
-		class += " epanic"
-	}
-	return class, len(d.AB.Rec), len(d.BA.Rec)
 }
 
 func mkOT(name string, rng *hxlib.Rng) ot.OT {
@@ -440,12 +403,9 @@ func (t *tapeThen) Read(p []byte) (int, error) {
 	return len(p), nil
 }
 
-// runFault runs one complete session with at most one fault; returns the
-// garbler's outcome class and the two stream lengths.
+// runFault runs one complete whole-circuit session with at most one fault;
+// returns the garbler's outcome class and the two stream lengths.
 func runFault(seed uint64, f *faultCase, ci int, deadline time.Duration) (string, int, int) {
-	if ci >= streamBase {
-		return runStreamFault(seed, f, ci, deadline)
-	}
 	s, sub := sessionFor(seed, ci)
 	rr := hxlib.NewRng(sub)
 	otName := faultOTs[ci%len(faultOTs)]
@@ -487,16 +447,45 @@ func runFault(seed uint64, f *faultCase, ci int, deadline time.Duration) (string
 	return class, len(d.AB.Rec), len(d.BA.Rec)
 }
 
+func streamSessFromArgs(prog, gin, ein string) *streamSess {
+	for k := range streamProgs {
+		if streamProgs[k].name == prog {
+			p := &streamProgs[k]
+			return &streamSess{prog: p, src: p.src, gin: splitIn(gin), ein: splitIn(ein), outBits: p.outBits}
+		}
+	}
+	return nil
+}
+
 // faultChild runs ONE fault case in this process (so that an allocation
 // blow-up caused by a corrupted length/count field kills only this case):
-// args: seed deadline_ms ci dir pos kind arg
+// args: seed deadline_ms ci dir pos kind arg [program garbler-inputs evaluator-inputs]
+// (the last three for streaming sessions; inputs joined by ';').
 func faultChild(args []string) int {
 	lim := syscall.Rlimit{Cur: 4 << 30, Max: 4 << 30}
 	syscall.Setrlimit(syscall.RLIMIT_AS, &lim)
 	seed, _ := strconv.ParseUint(args[0], 10, 64)
 	dl, _ := strconv.Atoi(args[1])
 	f := parseFault(strings.Join(args[2:7], " "))
-	class, _, _ := runFault(seed, &f, f.ci, time.Duration(dl)*time.Millisecond)
+	var fp *faultCase
+	if f.kind != "none" {
+		fp = &f
+	}
+	class := ""
+	if f.ci >= streamBase {
+		if len(args) < 10 {
+			fmt.Println("DONE usage")
+			return 2
+		}
+		ss := streamSessFromArgs(args[7], args[8], args[9])
+		if ss == nil {
+			fmt.Println("DONE usage")
+			return 2
+		}
+		class, _ = runStreamFault(seed, fp, f.ci, ss, false, time.Duration(dl)*time.Millisecond)
+	} else {
+		class, _, _ = runFault(seed, fp, f.ci, time.Duration(dl)*time.Millisecond)
+	}
 	fmt.Printf("DONE %s\n", class)
 	return 0
 }
@@ -536,13 +525,61 @@ func region(dir, pos, abLen, baLen int, s *sess) string {
 	return "ot_receiver_and_range"
 }
 
+// streamRegion names the part of a streaming session's stream a position lies in.
+func streamRegion(dir, pos int, l *layout, abLen, baLen, outBits int) string {
+	if dir == 1 {
+		switch {
+		case pos >= baLen-16*outBits:
+			return "stream_outputlabels"
+		case l.err == "" && pos >= baLen-l.resultMsg:
+			return "stream_result_framing"
+		}
+		return "stream_e2g_ot"
+	}
+	if l.err != "" {
+		return "stream_g2e"
+	}
+	switch {
+	case pos < 36:
+		return "stream_key"
+	case pos < l.headerEnd:
+		return "stream_description"
+	case pos < l.headerEnd+16*l.in1.size:
+		return "stream_inputlabels"
+	case pos < l.opsStart:
+		return "stream_g2e_ot"
+	}
+	return "stream_instructions"
+}
+
+// lengthTargets: the values a LENGTH / COUNT / WIDTH field of value v is
+// changed to: shrinking (v-1, v/2, lowest set bit cleared, 8 or 16 less) and
+// growing (v+1, 2v, lowest clear bit set, 8 or 16 more).
+func lengthTargets(v int, full bool) []int {
+	cand := []int{v - 1, v >> 1, v & (v - 1), v + 1, v << 1, v | (v + 1)}
+	if full {
+		cand = append(cand, v-8, v+8, v-16, v+16, 0, v>>2, v<<2)
+	}
+	seen := map[int]bool{v: true}
+	var out []int
+	for _, c := range cand {
+		if c < 0 || c > 1<<30 || seen[c] {
+			continue
+		}
+		seen[c] = true
+		out = append(out, c)
+	}
+	return out
+}
+
 func faults(args []string) int {
 	cf, o := hxlib.ParseCommon("c16", args, nil)
 	defer o.Close()
 	rng := hxlib.NewRng(cf.Seed ^ 0xfa17)
+	thorough := cf.Tier == "thorough"
 	nsess := 4
 	deadline := 1000
-	if cf.Tier == "thorough" {
+	if thorough {
 		nsess = 8
 	}
 	// baselines
@@ -551,6 +588,8 @@ func faults(args []string) int {
 		ab, ba int
 		s      *sess
 		ss     *streamSess
+		lay    *layout
+		rec    []byte // the baseline garbler->evaluator stream of a streaming session
 	}
 	var bases []base
 	for ci := 0; ci < nsess; ci++ {
@@ -560,39 +599,83 @@ func faults(args []string) int {
 			o.Fail("c16-baseline", map[string]any{"session": ci, "class": class})
 			return 0
 		}
-		bases = append(bases, base{ci, ab, ba, s, nil})
+		bases = append(bases, base{ci: ci, ab: ab, ba: ba, s: s})
 		o.CountN("transcript_bytes", ab+ba)
 		o.Sample(map[string]any{"session": ci, "ot": faultOTs[ci%len(faultOTs)], "circuit": hxlib.CircLine(s.c), "bytes_g2e": ab, "bytes_e2g": ba})
 	}
-	nstream := 2
-	if cf.Tier == "thorough" {
-		nstream = 3
+	variants := 3
+	sessions, uncovered, err := chooseStreamSessions(cf.Seed, variants)
+	if err != nil {
+		o.Fail("c16-baseline", map[string]any{"mode": "streaming", "error": err.Error()})
+		return 0
 	}
-	for k := 0; k < nstream; k++ {
+	for _, p := range streamProgs {
+		o.CountN("stream_output_bit_positions", p.outBits)
+		o.CountN("stream_output_bit_positions_never_1", uncovered[p.name])
+	}
+	for k, ss := range sessions {
 		ci := streamBase + k
-		class, ab, ba := runFault(cf.Seed, nil, ci, 30*time.Second)
-		ss, _ := streamSessionFor(cf.Seed, ci)
+		class, d := runStreamFault(cf.Seed, nil, ci, ss, false, 30*time.Second)
 		if class != "ok" {
-			o.Fail("c16-baseline", map[string]any{"session": ci, "class": class, "src": ss.src})
+			o.Fail("c16-baseline", map[string]any{"session": ci, "class": class, "program": ss.prog.name, "gin": ss.gin, "ein": ss.ein})
 			return 0
 		}
-		bases = append(bases, base{ci, ab, ba, nil, ss})
-		o.CountN("transcript_bytes", ab+ba)
+		iclass, id := runStreamFault(cf.Seed, nil, ci, ss, true, 30*time.Second)
+		lay := &layout{err: "ideal-OT baseline: " + iclass}
+		if iclass == "ok" {
+			lay = streamLayout(d.AB.Rec, d.BA.Rec, id.AB.Rec, id.BA.Rec, ss.outBits)
+		}
+		if lay.err != "" {
+			o.Count("stream_layout_failed")
+			o.Meta["stream_layout_error"] = fmt.Sprintf("session %d (%s): %s", ci, ss.prog.name, lay.err)
+		} else {
+			o.Count("stream_layout_ok")
+			o.CountN("stream_fields_located", len(lay.fields))
+			if lay.resultHead != 4 {
+				o.Count("stream_result_framing_not_4_bytes")
+			}
+		}
+		bases = append(bases, base{ci: ci, ab: len(d.AB.Rec), ba: len(d.BA.Rec), ss: ss, lay: lay, rec: d.AB.Rec})
+		o.CountN("transcript_bytes", len(d.AB.Rec)+len(d.BA.Rec))
 		o.Count("streaming_sessions")
-		o.Sample(map[string]any{"session": ci, "mode": "streaming", "src": ss.src, "bytes_g2e": ab, "bytes_e2g": ba})
+		if k < len(streamProgs) {
+			o.Count("streaming_programs")
+		}
+		o.Sample(map[string]any{"session": ci, "mode": "streaming", "program": ss.prog.name, "gin": ss.gin, "ein": ss.ein,
+			"bytes_g2e": len(d.AB.Rec), "bytes_e2g": len(d.BA.Rec), "fields": len(lay.fields)})
 	}
 	// enumerate cases
 	var cases []faultCase
-	if cf.Tier == "thorough" {
+	seen := map[string]bool{}
+	add := func(c faultCase, counter string) {
+		if seen[c.String()] {
+			return
+		}
+		seen[c.String()] = true
+		cases = append(cases, c)
+		if counter != "" {
+			o.Count(counter)
+		}
+	}
+	outBitsOf := func(b base) int {
+		if b.s != nil {
+			return b.s.c.Outputs.Size()
+		}
+		return b.ss.outBits
+	}
+	if thorough {
 		for _, b := range bases {
+			if b.ss != nil && b.ci >= streamBase+len(streamProgs) {
+				continue // positional sweep over the first variant of every program
+			}
 			for dir, n := range []int{b.ab, b.ba} {
 				for pos := 0; pos < n; pos++ {
-					cases = append(cases, faultCase{b.ci, dir, pos, "bit", rng.Intn(8)})
+					add(faultCase{b.ci, dir, pos, "bit", rng.Intn(8)}, "")
 					if pos%2 == 0 {
-						cases = append(cases, faultCase{b.ci, dir, pos, "byte", 0})
+						add(faultCase{b.ci, dir, pos, "byte", 0}, "")
 					}
 					if pos%8 == 0 {
-						cases = append(cases, faultCase{b.ci, dir, pos, "burst", rng.Intn(1 << 30)})
+						add(faultCase{b.ci, dir, pos, "burst", rng.Intn(1 << 30)}, "")
 					}
 				}
 			}
@@ -606,21 +689,18 @@ func faults(args []string) int {
 				n = b.ba
 			}
 			pos := rng.Intn(n)
-			outBits := 0
-			if b.s != nil {
-				outBits = b.s.c.Outputs.Size()
-			} else {
-				outBits = b.ss.outBits
-			}
 			// a third of the cases target the regions that decide the result
 			switch rng.Intn(6) {
 			case 0:
-				dir, pos = 1, b.ba-1-rng.Intn(16*outBits)
+				dir, pos = 1, b.ba-1-rng.Intn(16*outBitsOf(b))
 			case 1:
 				dir, pos = 0, rng.Intn(36+4)
+				if b.ss != nil && b.lay.err == "" {
+					pos = rng.Intn(b.lay.headerEnd) // the program description
+				}
 			}
 			kind := []string{"bit", "bit", "byte", "burst"}[rng.Intn(4)]
-			cases = append(cases, faultCase{b.ci, dir, pos, kind, rng.Intn(1 << 30)})
+			add(faultCase{b.ci, dir, pos, kind, rng.Intn(1 << 30)}, "")
 		}
 	}
 	// Decisive region of streaming sessions: the tail of the garbler->evaluator
@@ -628,7 +708,7 @@ func faults(args []string) int {
 	// uses to pick the labels it returns; every byte of it gets bit flips of
 	// the low bits (all 8 bits in the thorough tier).
 	for _, b := range bases {
-		if b.ss == nil {
+		if b.ss == nil || (!thorough && b.ci >= streamBase+len(streamProgs)) {
 			continue
 		}
 		lo := b.ab - (4*b.ss.outBits + 16)
@@ -636,13 +716,82 @@ func faults(args []string) int {
 			lo = 0
 		}
 		nb := 3
-		if cf.Tier == "thorough" {
+		if thorough {
 			nb = 8
 		}
 		for pos := lo; pos < b.ab; pos++ {
 			for bit := 0; bit < nb; bit++ {
-				cases = append(cases, faultCase{b.ci, 0, pos, "bit", bit})
-				o.Count("decisive_stream_return_ids_cases")
+				add(faultCase{b.ci, 0, pos, "bit", bit}, "decisive_stream_return_ids_cases")
+			}
+		}
+	}
+	// LENGTH / COUNT / WIDTH fields of streaming sessions, both directions,
+	// shrinking and growing.  Garbler->evaluator: every such field of the
+	// program description (key length, name / type string lengths, the Bits
+	// word and the member count of every argument, member and result, the
+	// digits of every type string, output count, step count) and of the
+	// instruction part (gate / temporary wire / wire counts of the streamed
+	// circuits, result data length).  Evaluator->garbler: every byte in front
+	// of the result labels of the result message (bit by bit, and as words
+	// with the same arithmetic targets).
+	for _, b := range bases {
+		if b.ss == nil || b.lay.err != "" {
+			continue
+		}
+		first := b.ci < streamBase+len(streamProgs)
+		ncirc := 0
+		for _, fd := range b.lay.fields {
+			inOps := fd.off >= b.lay.headerEnd
+			switch {
+			case fd.kind == "typedigit":
+				if !first && !thorough {
+					continue
+				}
+				for dgt := '0'; dgt <= '9'; dgt++ {
+					if int(dgt) != fd.val {
+						add(faultCase{b.ci, 0, fd.off, "xor", (fd.val ^ int(dgt)) << 24}, "length_field_cases_typedigit")
+					}
+				}
+			case fd.isLength():
+				if inOps && !thorough {
+					// quick: the first two and the last two circuits of the first variant
+					if fd.kind == "ngates" {
+						ncirc++
+					}
+					if !first || (ncirc > 2 && ncirc <= b.lay.ncirc-2 && fd.kind != "reslen") {
+						continue
+					}
+				}
+				if !first && !thorough && fd.kind != "bits" && fd.kind != "ccount" {
+					continue
+				}
+				full := thorough || fd.kind == "bits" || fd.kind == "ccount" || fd.kind == "nout"
+				for _, t := range lengthTargets(fd.val, full && !inOps) {
+					add(faultCase{b.ci, 0, fd.off, "xor", fd.val ^ t}, "length_field_cases_"+fd.kind)
+				}
+				if fd.kind == "bits" && (first || thorough) {
+					for bit := 0; bit < 8; bit++ {
+						add(faultCase{b.ci, 0, fd.off + 3, "bit", bit}, "length_field_cases_bits")
+					}
+				}
+			}
+		}
+		// evaluator->garbler: the framing of the result message
+		msg := b.ba - b.lay.resultMsg
+		for k := 0; k < b.lay.resultHead; k++ {
+			for bit := 0; bit < 8; bit++ {
+				add(faultCase{b.ci, 1, msg + k, "bit", bit}, "result_framing_cases")
+			}
+		}
+		for k := 0; k+4 <= b.lay.resultHead; k += 4 {
+			// the framing bytes are the same in every run of the session (the
+			// OT bytes in front of them are not): values from the ideal-OT run
+			v := int(binary.BigEndian.Uint32(b.lay.headBytes[k:]))
+			for _, t := range lengthTargets(v, true) {
+				add(faultCase{b.ci, 1, msg + k, "xor", v ^ t}, "result_framing_cases")
+			}
+			for _, m := range []int{0x30, 0x180, 0x1f0, 0xff, 0xffff} {
+				add(faultCase{b.ci, 1, msg + k, "xor", m}, "result_framing_cases")
 			}
 		}
 	}
@@ -655,36 +804,36 @@ func faults(args []string) int {
 	// gets it, plus flips at the other three corners of the label (all 128
 	// bits in the thorough tier).
 	for _, b := range bases {
-		outBits := 0
-		if b.s != nil {
-			outBits = b.s.c.Outputs.Size()
-		} else {
-			outBits = b.ss.outBits
+		outBits := outBitsOf(b)
+		if b.ss != nil && !thorough && b.ci >= streamBase+len(streamProgs) {
+			continue
 		}
 		for j := 0; j < outBits; j++ {
 			pos0 := b.ba - 16*outBits + 16*j
 			if pos0 < 0 {
 				continue
 			}
-			if cf.Tier == "thorough" {
+			if thorough && (b.ss == nil || b.ci < streamBase+len(streamProgs)) {
 				for k := 0; k < 128; k++ {
-					cases = append(cases, faultCase{b.ci, 1, pos0 + k/8, "bit", k % 8})
-					o.Count("select_bit_region_cases")
+					add(faultCase{b.ci, 1, pos0 + k/8, "bit", k % 8}, "select_bit_region_cases")
 				}
 				continue
 			}
 			for _, c := range [][2]int{{0, 7}, {0, 0}, {15, 0}, {15, 7}} {
-				cases = append(cases, faultCase{b.ci, 1, pos0 + c[0], "bit", c[1]})
-				o.Count("select_bit_region_cases")
+				add(faultCase{b.ci, 1, pos0 + c[0], "bit", c[1]}, "select_bit_region_cases")
 			}
 		}
 	}
-	// one child process per case, 32 at a time
+	baseOf := map[int]base{}
+	for _, b := range bases {
+		baseOf[b.ci] = b
+	}
+	// one child process per case, 48 at a time (most of them wait for a deadline)
 	results := map[string]string{}
 	self, _ := os.Executable()
 	var mu sync.Mutex
 	var wg sync.WaitGroup
-	sem := make(chan struct{}, 32)
+	sem := make(chan struct{}, 48)
 	for _, c := range cases {
 		wg.Add(1)
 		sem <- struct{}{}
@@ -692,6 +841,9 @@ func faults(args []string) int {
 			defer wg.Done()
 			defer func() { <-sem }()
 			argv := append([]string{"faultchild", fmt.Sprint(cf.Seed), fmt.Sprint(deadline)}, strings.Fields(c.String())...)
+			if b := baseOf[c.ci]; b.ss != nil {
+				argv = append(argv, b.ss.prog.name, joinIn(b.ss.gin), joinIn(b.ss.ein))
+			}
 			cmd := exec.Command(self, argv...)
 			outb, _ := cmd.Output()
 			class := "crash"
@@ -711,24 +863,17 @@ func faults(args []string) int {
 		keys = append(keys, k)
 	}
 	sort.Strings(keys)
+	var unexplained, explained []map[string]any
+	perClass := map[string]int{}
 	for _, k := range keys {
 		f := parseFault(k)
 		class := results[k]
-		var b base
-		for _, bb := range bases {
-			if bb.ci == f.ci {
-				b = bb
-			}
-		}
+		b := baseOf[f.ci]
 		reg := ""
 		if b.s != nil {
 			reg = region(f.dir, f.pos, b.ab, b.ba, b.s)
-		} else if f.dir == 1 && f.pos >= b.ba-16*b.ss.outBits {
-			reg = "stream_outputlabels"
-		} else if f.dir == 1 {
-			reg = "stream_e2g"
 		} else {
-			reg = "stream_g2e"
+			reg = streamRegion(f.dir, f.pos, b.lay, b.ab, b.ba, b.ss.outBits)
 		}
 		first := strings.Fields(class)[0]
 		o.Count("class_" + first)
@@ -741,10 +886,51 @@ func faults(args []string) int {
 			o.Count("evaluator_panics")
 		}
 		if first == "WRONG" {
-			o.Fail("c16-wrong-result-after-corruption", map[string]any{"fault": k, "region": reg, "class": class,
-				"session": f.ci, "seed": cf.Seed})
+			det := map[string]any{"fault": k, "region": reg, "class": class, "session": f.ci, "seed": cf.Seed}
+			if b.ss != nil {
+				det["mode"] = "streaming"
+				det["program"] = b.ss.prog.name
+				det["garbler_inputs"] = joinIn(b.ss.gin)
+				det["evaluator_inputs"] = joinIn(b.ss.ein)
+				det["replay_child"] = fmt.Sprintf("c16 faultchild %d 3000 %s %s '%s' '%s'", cf.Seed, k, b.ss.prog.name,
+					joinIn(b.ss.gin), joinIn(b.ss.ein))
+				var names []string
+				if b.lay.err == "" && f.dir == 0 {
+					for _, fd := range b.lay.touched(&f) {
+						names = append(names, fd.path+"."+fd.kind)
+					}
+				}
+				det["fields"] = strings.Join(names, "+")
+				got := strings.TrimPrefix(strings.Fields(class)[1], "got=")
+				for kk, v := range explainWrong(b.ss, b.lay, b.rec, &f, got) {
+					if bv, ok := v.(bool); ok {
+						det[kk] = strconv.FormatBool(bv) // strings: known_findings.json matches on them
+					} else {
+						det[kk] = v
+					}
+				}
+			} else {
+				det["mode"] = "whole-circuit"
+			}
+			if det["result_is_f_of_reparsed_input"] == "true" && det["only_evaluator_input_description_touched"] == "true" {
+				cl := fmt.Sprint(det["description_locally_consistent"])
+				o.Count("wrong_explained_by_reparsed_evaluator_input_consistent_" + cl)
+				if perClass[cl] < 3 {
+					perClass[cl]++
+					explained = append(explained, det)
+				}
+			} else {
+				unexplained = append(unexplained, det)
+			}
 		}
 		o.Op("fault "+k, first)
+	}
+	// failures nobody has explained first: hxlib keeps the first 20
+	if len(unexplained) > 14 {
+		unexplained = unexplained[:14]
+	}
+	for _, det := range append(unexplained, explained...) {
+		o.Fail("c16-wrong-result-after-corruption", det)
 	}
 	o.CountN("fault_cases", len(results))
 	return 0
